@@ -280,12 +280,11 @@ func ruleEffectShared(c *Ctx) {
 				srcOK = false
 				return true
 			}
-			switch p.calleeName(call) {
-			case "Decimal.appendSpecial", "digits.fmtE", "digits.fmtF":
-				if len(call.Args) == 0 || p.exprStr(call.Args[0]) != "buf" {
-					srcOK = false
-				}
-			default:
+			// an emitter: an unexported function of this package that is handed the buffer first and whose
+			// result does not alias package-level storage (fixpoint above)
+			cn := p.calleeName(call)
+			cfd := p.Funcs[cn]
+			if cfd == nil || cfd.Name.IsExported() || retTainted[cn] || len(call.Args) == 0 || p.exprStr(call.Args[0]) != "buf" {
 				srcOK = false
 			}
 			return true
